@@ -251,7 +251,7 @@ func (w *World) restartNode(n *Node, chunkMode int) {
 				cnt, pol, e = u.RestorePollardFrom(cr)
 				return e
 			}
-			m := u.NewMapPollard(n.cfg.Kind == "mapfull")
+			m := u.NewMapPollard(n.cfg.Kind == "mapfull" || n.cfg.FullRoots)
 			if n.cfg.DetMaps {
 				sd := mix64(w.sc.Seed ^ uint64(n.idx+1)*0x51ed27 ^ uint64(w.stats.Events))
 				m.Nodes, m.CachedLeaves = newDetNodes(sd), newDetCached(sd^0x77)
